@@ -261,9 +261,11 @@ def lean_imports_closure(relpath: str):
     todo = [relpath]
     while todo:
         rp = todo.pop()
-        if rp in seen or not (LEAN_DIR / rp).exists():
+        if rp in seen:
             continue
         seen.append(rp)
+        if not (LEAN_DIR / rp).exists():
+            continue
         for m in re.finditer(r"^\s*import\s+(AbtemVerif\.[\w.]+)", (LEAN_DIR / rp).read_text(), re.M):
             todo.append(m.group(1).replace(".", "/") + ".lean")
     return seen
@@ -482,9 +484,19 @@ def _run_property(prop: Property, ctx: Ctx, a) -> int:
     # 1. translator -------------------------------------------------------------
     if not a.no_build:
         ok, rep = translate(REPO)
-        proof["generated_sites"] = rep.get("sites", {})
-        if not ok:
-            broken.append("translator: " + rep.get("stdout", "")[-300:])
+        # only the generated modules this property's Lean files (transitively) import matter to it
+        mine = set()
+        for f in [prop.props_file] + list(prop.extra_lean) + ([prop.drive_file] if prop.drive_file else []):
+            for g in lean_imports_closure(f):
+                if g.startswith("AbtemVerif/Gen/"):
+                    mine.add(g[len("AbtemVerif/Gen/"):-5])
+        sites = {k: v for k, v in rep.get("sites", {}).items() if k.split(".")[0] in mine}
+        proof["generated_sites"] = sites
+        failed_sites = [k for k, v in sites.items() if v.get("status") != "ok"]
+        if failed_sites:
+            broken.append("translator failed for: " + ", ".join(f"{k} ({sites[k].get('reason', '')[:120]})" for k in failed_sites))
+        elif not ok and not rep.get("sites"):
+            broken.append("translator crashed: " + rep.get("stdout", "")[-300:])
     # 2. build ------------------------------------------------------------------
     files = [prop.props_file] + list(prop.extra_lean)
     theorems = []
